@@ -9,7 +9,9 @@
 //!   seq new W H | newfrom W H N | newwith W H | ms W H S N | is W H S N   <op>…
 //!   op  := get X Y | idx X Y | set X Y V | gset X Y V | row I | rset I J V | rows | iter
 //!        | rowsm V | iterm V | fill V | fillw V | copys W H S N | copyb W H | dims
-//!        | sub RECT op… end | isub RECT op… end | asm op… end | asr op… end
+//!        | copybv W H | copym W H S N l t r b
+//!        | sub RECT op… end | isub RECT op… end | asm op… end | asr op… end   (wrapper's AsMutSlice2 / AsSlice2 impl)
+//!        | asmi op… end | asri op… end                                          (inherent Inner::as_mut_slice2 / as_slice2)
 //!   RECT := A | P l t r b | T hk ha hb vk va vb      (k in F R RI FR TO TOI XE XI XU)
 //!   unit ctor W H S N | unit new W H | unit newfrom W H N | unit slice W H RECT | unit row W H I | unit get W H X Y
 //!    (zero-sized elements, huge dims)
@@ -17,7 +19,7 @@ use std::ops::{Bound, Deref, DerefMut, RangeBounds};
 use std::panic::{catch_unwind, AssertUnwindSafe};
 
 use re::math::vec2;
-use re::util::buf::{inner::Inner, Buf2, MutSlice2, Slice2};
+use re::util::buf::{inner::Inner, AsMutSlice2, AsSlice2, Buf2, MutSlice2, Slice2};
 use re::util::rect::Rect;
 
 use vharness::util::*;
@@ -132,8 +134,70 @@ fn rect(c: &mut Cur) -> Rect {
     }
 }
 
+/// The three public wrapper types. The interpreter keeps the wrapper (not just the `Inner` it derefs
+/// to) so that the `AsSlice2` / `AsMutSlice2` trait impls of each wrapper - the front doors
+/// `write_ppm`, `copy_from(impl AsSlice2)` etc. go through - are called as such.
+trait RoView {
+    type D: Deref<Target = [u32]>;
+    fn inner(&self) -> &Inner<u32, Self::D>;
+    /// `<Wrapper as AsSlice2>::as_slice2`
+    fn tr_as_slice2(&self) -> Slice2<'_, u32>;
+}
+trait RwView: RoView
+where
+    Self::D: DerefMut<Target = [u32]>,
+{
+    fn inner_mut(&mut self) -> &mut Inner<u32, Self::D>;
+    /// `<Wrapper as AsMutSlice2>::as_mut_slice2`
+    fn tr_as_mut_slice2(&mut self) -> MutSlice2<'_, u32>;
+}
+impl RoView for Buf2<u32> {
+    type D = Vec<u32>;
+    fn inner(&self) -> &Inner<u32, Vec<u32>> {
+        self
+    }
+    fn tr_as_slice2(&self) -> Slice2<'_, u32> {
+        <Buf2<u32> as AsSlice2<u32>>::as_slice2(self)
+    }
+}
+impl RwView for Buf2<u32> {
+    fn inner_mut(&mut self) -> &mut Inner<u32, Vec<u32>> {
+        self
+    }
+    fn tr_as_mut_slice2(&mut self) -> MutSlice2<'_, u32> {
+        <Buf2<u32> as AsMutSlice2<u32>>::as_mut_slice2(self)
+    }
+}
+impl<'a> RoView for Slice2<'a, u32> {
+    type D = &'a [u32];
+    fn inner(&self) -> &Inner<u32, &'a [u32]> {
+        self
+    }
+    fn tr_as_slice2(&self) -> Slice2<'_, u32> {
+        <Slice2<'a, u32> as AsSlice2<u32>>::as_slice2(self)
+    }
+}
+impl<'a> RoView for MutSlice2<'a, u32> {
+    type D = &'a mut [u32];
+    fn inner(&self) -> &Inner<u32, &'a mut [u32]> {
+        self
+    }
+    fn tr_as_slice2(&self) -> Slice2<'_, u32> {
+        <MutSlice2<'a, u32> as AsSlice2<u32>>::as_slice2(self)
+    }
+}
+impl<'a> RwView for MutSlice2<'a, u32> {
+    fn inner_mut(&mut self) -> &mut Inner<u32, &'a mut [u32]> {
+        self
+    }
+    fn tr_as_mut_slice2(&mut self) -> MutSlice2<'_, u32> {
+        <MutSlice2<'a, u32> as AsMutSlice2<u32>>::as_mut_slice2(self)
+    }
+}
+
 /// Operations available on every view. Returns false if `op` is not a read operation.
-fn read_op<D: Deref<Target = [u32]>>(v: &Inner<u32, D>, op: &str, c: &mut Cur, out: &mut Vec<String>) -> bool {
+fn read_op<W: RoView>(wv: &W, op: &str, c: &mut Cur, out: &mut Vec<String>) -> bool {
+    let v = wv.inner();
     match op {
         "get" => {
             let (x, y) = (c.u32(), c.u32());
@@ -167,13 +231,21 @@ fn read_op<D: Deref<Target = [u32]>>(v: &Inner<u32, D>, op: &str, c: &mut Cur, o
             let r = rect(c);
             let child = v.slice(r);
             out.push("[".into());
-            run_ro(&*child, c, out);
+            run_ro(&child, c, out);
             out.push("]".into());
         }
         "asr" => {
+            // through the wrapper's `AsSlice2` impl
+            let child = wv.tr_as_slice2();
+            out.push("[".into());
+            run_ro(&child, c, out);
+            out.push("]".into());
+        }
+        "asri" => {
+            // the inherent `Inner::as_slice2`
             let child = v.as_slice2();
             out.push("[".into());
-            run_ro(&*child, c, out);
+            run_ro(&child, c, out);
             out.push("]".into());
         }
         _ => return false,
@@ -181,7 +253,7 @@ fn read_op<D: Deref<Target = [u32]>>(v: &Inner<u32, D>, op: &str, c: &mut Cur, o
     true
 }
 
-fn run_ro<D: Deref<Target = [u32]>>(v: &Inner<u32, D>, c: &mut Cur, out: &mut Vec<String>) {
+fn run_ro<W: RoView>(v: &W, c: &mut Cur, out: &mut Vec<String>) {
     while c.more() {
         let op = c.tok();
         if op == "end" {
@@ -193,15 +265,19 @@ fn run_ro<D: Deref<Target = [u32]>>(v: &Inner<u32, D>, c: &mut Cur, out: &mut Ve
     }
 }
 
-fn run_rw<D: DerefMut<Target = [u32]>>(v: &mut Inner<u32, D>, c: &mut Cur, out: &mut Vec<String>) {
+fn run_rw<W: RwView>(wv: &mut W, c: &mut Cur, out: &mut Vec<String>)
+where
+    W::D: DerefMut<Target = [u32]>,
+{
     while c.more() {
         let op = c.tok();
         if op == "end" {
             return;
         }
-        if read_op(v, op, c, out) {
+        if read_op(&*wv, op, c, out) {
             continue;
         }
+        let v = wv.inner_mut();
         match op {
             "set" => {
                 let (x, y, a) = (c.u32(), c.u32(), c.u32());
@@ -263,22 +339,48 @@ fn run_rw<D: DerefMut<Target = [u32]>>(v: &mut Inner<u32, D>, c: &mut Cur, out: 
                 out.push("ok".into());
             }
             "copyb" => {
+                // `impl AsSlice2 for &Buf2`
                 let (w, h) = (c.u32(), c.u32());
                 let src = Buf2::new_with((w, h), |x, y| 7000 + 100 * y + x);
                 v.copy_from(&src);
+                out.push("ok".into());
+            }
+            "copybv" => {
+                // `impl AsSlice2 for Buf2` (by value)
+                let (w, h) = (c.u32(), c.u32());
+                let src = Buf2::new_with((w, h), |x, y| 7000 + 100 * y + x);
+                v.copy_from(src);
+                out.push("ok".into());
+            }
+            "copym" => {
+                // `impl AsSlice2 for MutSlice2`: a (strided) mutable sub-view as the source
+                let (w, h, s, n) = (c.u32(), c.u32(), c.u32(), c.u32());
+                let (l, t, r, b) = (c.u32(), c.u32(), c.u32(), c.u32());
+                let mut src: Vec<u32> = (5000..5000 + n).collect();
+                let mut root = MutSlice2::new((w, h), s, &mut src);
+                let sub = root.slice_mut((l..r, t..b));
+                v.copy_from(sub);
                 out.push("ok".into());
             }
             "sub" => {
                 let r = rect(c);
                 let mut child: MutSlice2<u32> = v.slice_mut(r);
                 out.push("[".into());
-                run_rw(&mut *child, c, out);
+                run_rw(&mut child, c, out);
                 out.push("]".into());
             }
             "asm" => {
+                // through the wrapper's `AsMutSlice2` impl
+                let mut child: MutSlice2<u32> = wv.tr_as_mut_slice2();
+                out.push("[".into());
+                run_rw(&mut child, c, out);
+                out.push("]".into());
+            }
+            "asmi" => {
+                // the inherent `Inner::as_mut_slice2`
                 let mut child: MutSlice2<u32> = v.as_mut_slice2();
                 out.push("[".into());
-                run_rw(&mut *child, c, out);
+                run_rw(&mut child, c, out);
                 out.push("]".into());
             }
             _ => panic!("harness: unknown op {op}"),
@@ -299,33 +401,33 @@ fn run_seq(t: &[&str]) -> String {
             let (w, h) = (c.u32(), c.u32());
             let b = buf_root.insert(Buf2::<u32>::new((w, h)));
             out.push("ok".into());
-            run_rw(&mut **b, &mut c, &mut out);
+            run_rw(b, &mut c, &mut out);
         }
         "newfrom" => {
             let (w, h, n) = (c.u32(), c.u32(), c.u32());
             let b = buf_root.insert(Buf2::<u32>::new_from((w, h), 1000..1000 + n));
             out.push("ok".into());
-            run_rw(&mut **b, &mut c, &mut out);
+            run_rw(b, &mut c, &mut out);
         }
         "newwith" => {
             let (w, h) = (c.u32(), c.u32());
             let b = buf_root.insert(Buf2::<u32>::new_with((w, h), |x, y| 100 * y + x + 1));
             out.push("ok".into());
-            run_rw(&mut **b, &mut c, &mut out);
+            run_rw(b, &mut c, &mut out);
         }
         "ms" => {
             let (w, h, s, n) = (c.u32(), c.u32(), c.u32(), c.u32());
             vec_root = (1000..1000 + n).collect();
             let mut v = MutSlice2::new((w, h), s, &mut vec_root);
             out.push("ok".into());
-            run_rw(&mut *v, &mut c, &mut out);
+            run_rw(&mut v, &mut c, &mut out);
         }
         "is" => {
             let (w, h, s, n) = (c.u32(), c.u32(), c.u32(), c.u32());
             vec_root = (1000..1000 + n).collect();
             let v = Slice2::new((w, h), s, &vec_root);
             out.push("ok".into());
-            run_ro(&*v, &mut c, &mut out);
+            run_ro(&v, &mut c, &mut out);
         }
         _ => panic!("harness: unknown constructor"),
     }));
